@@ -113,7 +113,10 @@ impl SnapshotWriterActor {
         .wait(ctx);
     }
 
-    fn flush(&mut self, ctx: &mut Context<Self>) {
+    /// the returned receiver fires once the flush has completed: the caller registers the snapshot
+    /// right after the answer, so the answer must not overtake the last write
+    fn flush(&mut self, ctx: &mut Context<Self>) -> tokio::sync::oneshot::Receiver<bool> {
+        let (tx, rx) = tokio::sync::oneshot::channel();
         let mut writer = self.inner_writer.take().unwrap();
         async move {
             writer.flush().await?;
@@ -123,11 +126,14 @@ impl SnapshotWriterActor {
         .map(|v: anyhow::Result<SnapshotWriter>, act, ctx| {
             if let Ok(v) = v {
                 act.inner_writer = Some(v);
+                tx.send(true).ok();
             } else {
+                tx.send(false).ok();
                 ctx.stop()
             }
         })
         .wait(ctx);
+        rx
     }
 }
 
@@ -152,17 +158,24 @@ pub enum SnapshotWriterResponse {
 }
 
 impl Handler<SnapshotWriterRequest> for SnapshotWriterActor {
-    type Result = anyhow::Result<SnapshotWriterResponse>;
+    type Result = ResponseFuture<anyhow::Result<SnapshotWriterResponse>>;
 
     fn handle(&mut self, msg: SnapshotWriterRequest, ctx: &mut Self::Context) -> Self::Result {
         match msg {
             SnapshotWriterRequest::Record(record) => {
                 self.write(ctx, record);
-                Ok(SnapshotWriterResponse::None)
+                Box::pin(async { Ok(SnapshotWriterResponse::None) })
             }
             SnapshotWriterRequest::Flush => {
-                self.flush(ctx);
-                Ok(SnapshotWriterResponse::Path(self.path.clone()))
+                let done = self.flush(ctx);
+                let path = self.path.clone();
+                Box::pin(async move {
+                    if done.await.unwrap_or(false) {
+                        Ok(SnapshotWriterResponse::Path(path))
+                    } else {
+                        Err(anyhow::anyhow!("snapshot flush failed"))
+                    }
+                })
             }
         }
     }
